@@ -62,6 +62,8 @@ REC_KEYS = {
     # ticks
     'when': REAL, 'when_monotonic': REAL, 'sequence_counter': INT, 'stereotypes': TList(STR),
     'nick_identifier': STR, 'ip_address': STR,
+    # handshake notifications
+    'authorization': INT,
 }
 
 EXTERNAL_TYPES = {}
